@@ -1,6 +1,7 @@
 (* C01: generated serializers emit exactly the DSDL wire representation.
    Statements only; proofs in Spec/WireThm*.v (specification level) and Codec/Refine.v (code-shaped walker). *)
 From Verif Require Import Wire WireThm WireThmRt WireThmValid Walker.
+Local Open Scope nat_scope.
 
 (* every encoding of every well-formed type lies within the exported bounds; composites are whole bytes *)
 Theorem c01_enc_len_bounds : forall t v b, wf_ty t = true -> enc_body t v = Ok b ->
